@@ -31,7 +31,7 @@ LEVEL_NOTE = ('Trusted: scripted_rng.py reproduces the Generator methods the fun
               'replace=False), integers, shuffle); an implementation using another method falls back to a seeded real '
               'generator and the completeness part is then reported inconclusive. Uniformity is not claimed.')
 SHARDS = {'quick': 4, 'thorough': 16}
-BUDGET_S = {'quick': 60, 'thorough': 900}
+BUDGET_S = {'quick': 300, 'thorough': 2400}
 RULE = ('case = (layout, action) with all random outcomes enumerated, or one seeded call. non-trivial = layout with at '
         'least one obstacle that has a floor neighbour, resp. agent on a telepod; distinct by layout encoding.')
 ASSUMPTIONS = ['every random outcome = every script of the stand-in generator; exhaustive only for the layouts enumerated']
